@@ -6,7 +6,11 @@ func init() {
 
 // H02_stored: stored fields, ids, id lookup, Count, Fields, early-stopping visitors.
 func H02_stored() {
-	cfg := gCfg{prefix: "", idBase: "d", nDocs: vChoice("nDocs", 3), wide: vChoice("wide", 6) - 1, maxAP: 2,
+	wide := -1
+	if vParam("wide", 1) == 1 {
+		wide = vChoice("wide", 6) - 1
+	}
+	cfg := gCfg{prefix: "", idBase: "d", nDocs: vChoice("nDocs", 1+vParam("maxDocs", 2)), wide: wide, maxAP: vParam("maxAP", 2), symTyp: true,
 		fields: []gField{
 			{name: "s", terms: []string{"a"}, store: true, multi: true, allTerm: true},
 			{name: "b", terms: []string{"x"}, store: true, allTerm: true},
